@@ -145,15 +145,23 @@ type gateStore struct {
 	height   *gate // getNextHeight's read
 	prevRoot *gate // processSpecBlockParts' GlobalStateRootByBlockNumber
 	onHeight func(found bool, h uint64)
+	// lin, when set, is held across getNextHeight's read: the consumer of the free-running rounds holds
+	// it across Blockchain.Store AND the logging of its Store event, so a height that already includes
+	// the block is never read (and shown by the next request) before the event is in the trace
+	lin *sync.Mutex
 }
 
 func (s *gateStore) Get(key []byte, cb func([]byte) error) error {
 	s.mu.Lock()
-	hg, pg, oh := s.height, s.prevRoot, s.onHeight
+	hg, pg, oh, lin := s.height, s.prevRoot, s.onHeight, s.lin
 	s.mu.Unlock()
 	if string(key) == string(db.ChainHeight.Key()) && calledFrom("p2p/sync.(*Service).getNextHeight") {
 		if hg != nil {
 			hg.arrive(nil)
+		}
+		if lin != nil {
+			lin.Lock()
+			defer lin.Unlock()
 		}
 		if oh != nil {
 			found := false
